@@ -10,7 +10,7 @@ use std::ffi::OsString;
 
 pub static DEF: PropDef = PropDef {
     id: "C19",
-    rule: "outcomes: sequences of 0-30 child outcomes over {exit 0, exit 1..125, exit 255, death by SIGTERM/SIGKILL/SIGUSR1/SIGINT/SIGSEGV-as-raise}, one invocation per outcome (batching by -n k / -L k with k in 1..3 and exactly k arguments per invocation, or -I), delivered to the rec recorder through its script; fatal outcomes at every position, also after earlier ordinary failures; command kinds: rec, a missing name (bare and with a path), a non-executable file, a directory, an executable-bit file that is not an executable image (junk / empty); input modes default/-0/-d. Exhaustive sub-run: every outcome sequence of length <= 4 over the six outcome classes {0, 1, 125, 255, SIGTERM, SIGKILL}. own-errors: a table of usage and input errors (bad -n/-L/-s/-P/-d values, unknown option, -s smaller than the command, -s too small for one argument, unterminated quotes, missing -a file) each preceded by 0-3 successful or failing invocations where the error is raised lazily. Oracle: the exit-status automaton from the statement (0; 123 sticky after any exit 1..125; stop at first 255 -> 124, signal -> 125, cannot run -> 126, not found -> 127; own errors -> 1) compared with the xargs binary's status; the recorder's invocation count must equal the index of the stopping outcome + 1 (or all). Non-trivial = the sequence has an ordinary failure before a fatal outcome, or a fatal outcome that is not last, or (own-errors) the error follows at least one invocation. Distinct = distinct case JSON.",
+    rule: "outcomes: sequences of 0-30 child outcomes over {exit 0, exit 1..125, exit 255, death by SIGTERM/SIGKILL/SIGUSR1/SIGINT/SIGSEGV-as-raise}, one invocation per outcome, 1 case in 6 with xargs' stderr connected to /dev/full (batching by -n k / -L k with k in 1..3 and exactly k arguments per invocation, or -I), delivered to the rec recorder through its script; fatal outcomes at every position, also after earlier ordinary failures; command kinds: rec, a missing name (bare and with a path), a non-executable file, a directory, an executable-bit file that is not an executable image (junk / empty); input modes default/-0/-d. Exhaustive sub-run: every outcome sequence of length <= 4 over the six outcome classes {0, 1, 125, 255, SIGTERM, SIGKILL}. own-errors: a table of usage and input errors (bad -n/-L/-s/-P/-d values, unknown option, -s smaller than the command, -s too small for one argument, unterminated quotes, missing -a file) each preceded by 0-3 successful or failing invocations where the error is raised lazily. Oracle: the exit-status automaton from the statement (0; 123 sticky after any exit 1..125; stop at first 255 -> 124, signal -> 125, cannot run -> 126, not found -> 127; own errors -> 1) compared with the xargs binary's status; the recorder's invocation count must equal the index of the stopping outcome + 1 (or all). Non-trivial = the sequence has an ordinary failure before a fatal outcome, or a fatal outcome that is not last, or (own-errors) the error follows at least one invocation. Distinct = distinct case JSON.",
     assumptions: &[
         "child exit codes 126-254 are not generated (the statement does not fix them)",
         "an own error raised while reading input (unterminated quote, oversized argument) after a child already exited 255 / died is governed by the earlier fatal outcome (xargs stops at once)",
@@ -43,6 +43,9 @@ pub struct Case {
     /// outcome of the single argument-less invocation that empty input causes (without -r)
     #[serde(default = "ok_outcome")]
     pub bare: Oc,
+    /// xargs' stderr is /dev/full: its diagnostics cannot be written, the exit status must not change
+    #[serde(default)]
+    pub stderr_full: bool,
 }
 
 fn ok_outcome() -> Oc {
@@ -72,7 +75,7 @@ pub fn gen_case(g: &mut Gen) -> Case {
     }
     let batch = g.weighted(&[5, 3, 2]) as u8;
     let k = if batch == 2 { 1 } else { g.usize_in(1, 3) };
-    Case { outcomes, k, batch, cmd: g.weighted(&[14, 1, 1, 1, 1, 1, 1]) as u8, mode: g.weighted(&[5, 2, 1]) as u8, no_run_if_empty: g.chance(1, 3), bare: gen_outcome(g) }
+    Case { outcomes, k, batch, cmd: g.weighted(&[14, 1, 1, 1, 1, 1, 1]) as u8, mode: g.weighted(&[5, 2, 1]) as u8, no_run_if_empty: g.chance(1, 3), bare: gen_outcome(g), stderr_full: g.chance(1, 6) }
 }
 
 pub fn script_of(o: &[Oc]) -> String {
@@ -197,7 +200,7 @@ pub fn check(ctx: &mut Ctx, c: &Case) -> Outcome {
     };
     // -I with empty input runs nothing (C20) - not asserted here beyond the status
     let script = if c.outcomes.is_empty() { script_of(std::slice::from_ref(&c.bare)) } else { script_of(&c.outcomes) };
-    let run = run_xargs(ctx, &opts, &cmd, &input, &script, BinOpts { clear_env: true, ..Default::default() });
+    let run = run_xargs(ctx, &opts, &cmd, &input, &script, BinOpts { clear_env: true, stderr_sink: c.stderr_full as u8, ..Default::default() });
     let kind = match c.cmd {
         0 => "rec",
         1 | 2 => "missing-command",
@@ -224,6 +227,7 @@ pub fn check(ctx: &mut Ctx, c: &Case) -> Outcome {
         .class_if(c.outcomes.is_empty(), "empty-input")
         .class_if(c.outcomes.is_empty() && runs_at_all && c.bare != Oc::Exit(0), "empty-input-invocation-fails")
         .class_if(c.batch == 2, "replace-mode")
+        .class_if(c.stderr_full, "stderr-cannot-be-written")
         .sample(json!({"cmdline": format!("xargs {} {}", opts.iter().map(|o| o.to_string_lossy().into_owned()).collect::<Vec<_>>().join(" "), kind), "script": script_of(&c.outcomes), "status": want_status, "invocations": want_started}))
         .ok()
 }
@@ -363,7 +367,7 @@ fn run(w: &mut Worker) {
                 o.push(classes[idx % classes.len()].clone());
                 idx /= classes.len();
             }
-            all.push(Case { outcomes: o, k: 1, batch: (all.len() % 2) as u8, cmd: 0, mode: 0, no_run_if_empty: false, bare: classes[all.len() % classes.len()].clone() });
+            all.push(Case { outcomes: o, k: 1, batch: (all.len() % 2) as u8, cmd: 0, mode: 0, no_run_if_empty: false, bare: classes[all.len() % classes.len()].clone(), stderr_full: all.len() % 5 == 4 });
         }
     }
     w.exhaustive("outcomes-short", &format!("all outcome sequences of length <= {maxlen} over 6 outcome classes"), all.into_iter(), check);
